@@ -245,14 +245,17 @@ static cfg_opt_t *mk_root(void)
 	alloc_values(&o[1], 1);
 	sec_s = o[1].values[0]->section = mk_section2("s", NULL, CTXF);
 	{
-		/* s additionally holds a nested single section n { a z } (two section steps in one path) */
+		/* s additionally holds a nested multi section n { a z } x2 (two section steps in one path) */
 		cfg_opt_t *o3 = alloc_opts(3);
 
 		o3[0] = sec_s->opts[0];
 		o3[1] = sec_s->opts[1];
-		init_opt(&o3[2], "n", CFGT_SEC, CFGF_DEFINIT);
-		alloc_values(&o3[2], 1);
+		/* n is a MULTI section with two instances: index resolution (and every way it can fail) is exercised
+		 * at the second step of a path too, after a first step that selected instance 0 */
+		init_opt(&o3[2], "n", CFGT_SEC, CFGF_MULTI);
+		alloc_values(&o3[2], 2);
 		sec_n = o3[2].values[0]->section = mk_section2("n", NULL, CTXF);
+		o3[2].values[1]->section = mk_section2("n", NULL, CTXF);
 		sec_s->opts = o3;
 	}
 	init_opt(&o[2], "m", CFGT_SEC, CFGF_MULTI);
